@@ -110,18 +110,40 @@ Definition flags_of (o: opts) : flags := {| g_on := o.(o_fon); g_ba := o.(o_fba)
 (* fields                                                               *)
 Inductive dflt := DNo | DVal (v: pv) | DFac (v: pv).   (* DFac v: default_factory whose call yields v *)
 
+(* the field's type as far as CodeBuilder.is_field_nullable looks at it (kernel K17) *)
+Inductive fty :=
+| TyPlain                   (* int, date, List[...], a dataclass, ... *)
+| TyAny | TyNoneType | TyNoneLit        (* typing.Any, type(None), None *)
+| TyOptional                (* Optional[X] = Union[X, None]: exactly two members *)
+| TyUnionNone               (* a Union of three or more members one of which is None *)
+| TyTypeVarAny              (* an unconstrained, unbound TypeVar *)
+| TyAnnotated (t: fty)      (* Annotated[t, ...] *)
+| TyFinal (t: fty)          (* Final[t] *)
+| TyFinalBare.              (* Final without argument *)
+
+(* Annotated[...] and Final[...] do not change what a field may hold *)
+Fixpoint unwrap (t: fty) : fty :=
+  match t with TyAnnotated u | TyFinal u => unwrap u | _ => t end.
+(* is_field_nullable, type part = the type admits None (since /repo 906a805 every union that
+   contains None counts, not only the two-member Optional) *)
+Definition ty_nullable (t: fty) : bool :=
+  match unwrap t with TyAny | TyNoneType | TyNoneLit | TyOptional | TyTypeVarAny | TyUnionNone => true | _ => false end.
+
 Record fplan := {
   p_name : string;
   p_alias : option string;
-  p_tynull : bool;          (* type is Optional[...] / Any / None *)
+  p_ty : fty;
   p_trivial : bool;         (* the packer is the identity expression *)
   p_default : dflt;
   p_omit : bool;            (* metadata serialize="omit" *)
 }.
 
-(* could_be_none: get_field_default WITHOUT calling the factory *)
+Definition p_tynull (p: fplan) : bool := ty_nullable p.(p_ty).
+Arguments p_tynull : simpl never.
+
+(* could_be_none = is_field_nullable: get_field_default WITHOUT calling the factory *)
 Definition nullable (p: fplan) : bool :=
-  p.(p_tynull) || match p.(p_default) with DVal PNone => true | _ => false end.
+  p_tynull p || match p.(p_default) with DVal PNone => true | _ => false end.
 (* get_field_default(call_factory=True) *)
 Definition default_value (p: fplan) : option pv :=
   match p.(p_default) with DNo => None | DVal v | DFac v => Some v end.
@@ -242,7 +264,7 @@ Definition to_dict_model (o: opts) (fs: list fplan) (vs: list fval) : out :=
 
 (* the plain twin: same fields, no per-field omit, no options *)
 Definition clear_omit (p: fplan) : fplan :=
-  {| p_name := p.(p_name); p_alias := p.(p_alias); p_tynull := p.(p_tynull); p_trivial := p.(p_trivial);
+  {| p_name := p.(p_name); p_alias := p.(p_alias); p_ty := p.(p_ty); p_trivial := p.(p_trivial);
      p_default := p.(p_default); p_omit := false |}.
 Definition plain_out (fs: list fplan) (vs: list fval) : list (string * pv) :=
   match to_dict_model plain_opts (map clear_omit fs) vs with Some l => l | None => [] end.
